@@ -363,6 +363,8 @@ def chrom_names(col):
 
 def rows_of(table):
     """interval table -> [(chromosome, start, stop)]"""
+    if not all(hasattr(table, n) for n in ('chromosome', 'start', 'stop')):
+        return ('not-an-interval-table', type(table).__name__)
     ch = chrom_names(table.chromosome)
     st = ints(table.start)
     en = ints(table.stop)
@@ -375,6 +377,8 @@ def rows_of(table):
 def dense_views(r):
     """run-length array -> {'to_array': [...], 'runs': [...]} both as plain int lists of length len(r)"""
     np = _np()
+    if not all(hasattr(r, n) for n in ('to_array', 'starts', 'ends', 'values', '__len__')):
+        return {'type': ['not-a-run-length-array', type(r).__name__]}
     n = int(len(r))
     arr = [observe.norm(x) for x in np.asarray(r.to_array()).tolist()]
     starts = np.asarray(r.starts).tolist()
